@@ -344,4 +344,19 @@ theorem apply_parallel_any_pool (idOf : Nat → Id) (app : Nat → Val) (s : Sto
   refine ⟨?_, h.1, h.2⟩
   simp [applyTo, hsel, schedule, asCompleted, submitAll]
 
+/-- **`list(app.as_completed(inputs, parallel=…))` accounts for every (truthy) input exactly once, under its own source,
+with the value the app returns on that input alone** — serial (then also in input order) or parallel with ANY completion order
+of a pool that completes each submitted future once.  (Falsy inputs are dropped by `_proxy_input`: known finding
+C14-falsy-input-dropped.) -/
+theorem as_completed_accounts {α β} (app : α → β) (truthy : α → Bool) (dstore : List α) (parallel : Bool) (order : List Nat)
+    (hpool : parallel = true → order.Perm (List.range (dstore.filter truthy).length)) :
+    (asCompletedApp app truthy dstore parallel order).Perm ((dstore.filter truthy).map (fun e => (e, app e))) ∧
+    (parallel = false → asCompletedApp app truthy dstore parallel order = (dstore.filter truthy).map (fun e => (e, app e))) := by
+  unfold asCompletedApp proxyInput
+  cases parallel with
+  | false => exact ⟨List.Perm.refl _, fun _ => rfl⟩
+  | true => exact ⟨asCompleted_perm _ _ order (hpool rfl), fun h => by cases h⟩
+
+example : asCompletedApp (fun x => x * x) (fun x => x != 0) [3, 0, 5, 7] true [2, 0, 1] = [(7, 49), (3, 9), (5, 25)] := by decide
+
 end CogentModel.C14
